@@ -304,7 +304,46 @@ func commonType(r *rand.Rand, model []any, els []any, o ReprOpts) (reflect.Type,
 	return ty, els
 }
 
+// allEmptyLists reports whether every element is an empty JSON array (and there is at least one).
+func allEmptyLists(model []any) bool {
+	if len(model) == 0 {
+		return false
+	}
+	for _, m := range model {
+		if l, ok := m.([]any); !ok || len(l) != 0 {
+			return false
+		}
+	}
+	return true
+}
+
 func listOf(r *rand.Rand, model, els []any, o ReprOpts, t *ReprTrace) any {
+	if allEmptyLists(model) && !o.NoTyped && !o.NoArrays && r.IntN(2) == 0 {
+		// a list of empty lists as a slice of ZERO-SIZE Go arrays ([][0]int{{}, {}}): all such slices share one data pointer
+		et := reflect.ArrayOf(0, Pick(r, []reflect.Type{reflect.TypeOf(0), reflect.TypeOf(""), anyType, reflect.TypeOf(0.0)}))
+		s := reflect.MakeSlice(reflect.SliceOf(et), len(model), len(model))
+		t.note("slice[zero-size array]")
+		return s.Interface()
+	}
+	if len(model) > 0 && !o.NoTyped && !o.NoArrays && r.IntN(2) == 0 {
+		// a list whose elements are all lists of k empty lists: [][k][0]T (still zero-size elements)
+		k := -1
+		ok := true
+		for _, m := range model {
+			l, isList := m.([]any)
+			if !isList || !allEmptyLists(l) || (k >= 0 && len(l) != k) {
+				ok = false
+				break
+			}
+			k = len(l)
+		}
+		if ok && k > 0 {
+			et := reflect.ArrayOf(k, reflect.ArrayOf(0, Pick(r, []reflect.Type{reflect.TypeOf(0), reflect.TypeOf(""), anyType})))
+			s := reflect.MakeSlice(reflect.SliceOf(et), len(model), len(model))
+			t.note("slice[zero-size nested array]")
+			return s.Interface()
+		}
+	}
 	mode := r.IntN(10)
 	if mode >= 5 && !o.NoTyped { // typed container
 		if ty, vals := commonType(r, model, els, o); ty != nil {
